@@ -55,6 +55,9 @@ CHECKS = {
  "C19": dict(engine="sched", technique="schedule enumeration and random schedule generation under an owned lock-step thread scheduler, with counting oracles at the sink and at a transparent tap above take",
              text="take(n), n in 1..3, fed by merge! of 2-3 member threads or directly by one source delivering from 2-3 threads; same scheduler and generators as C18 with take.rs hooked. Oracle: at most n data at the sink, exactly one Terminate to the sink and exactly one termination on take's upstream edge once n were delivered, no member terminated twice.", ref="DESIGN.md §4 C19",
              note="Trusted base as for C18."),
+ "C20": dict(engine="trace-diff", technique="differential property testing across build configurations: identical generated cases run with the crate's `tracing` feature off, on without a subscriber, and on with a field-formatting subscriber; per-case history digests compared",
+             text="Two harness builds (target/ and target-tracing/) generate the same case sequence from the seed; the digest covers every message and value at every harness actor and every closure / Iterator::next call, so a dropped, duplicated or twice-evaluated message expression under the feature changes it. A differing case is shrunk under the predicate `digests differ` and saved as a replay that re-runs in both builds.", ref="DESIGN.md §4 C20",
+             note="Trusted base: determinism of case generation and of the interpreters across the two builds, the digest (FNV-1a over the normalised log), the minimal subscriber. Clone counts of values are deliberately not part of the digest."),
 }
 
 def main():
@@ -94,6 +97,8 @@ def main():
              "kind_free_text": "virtual-time executor (mock Nurse + Timer) driving the crate's interval; also feeds one case in eight of C01/C02/C03/C13/C17"},
             {"name": "sched", "path": "harness/src/sched.rs", "serves_properties": ["C18", "C19"],
              "kind_free_text": "lock-step scheduler over real OS threads driven through the crate's cfg-guarded hook; depth-first schedule enumeration plus proptest-generated random schedules"},
+            {"name": "trace-diff", "path": "harness/src/c20.rs", "serves_properties": ["C20"],
+             "kind_free_text": "cross-build digest differential over world, pipeline and clock cases (feature `tracing` off / on / on with subscriber)"},
             {"name": "pipeline", "path": "harness/src/pipeline.rs", "serves_properties": [p for p in ids if CHECKS.get(p, {}).get("engine") == "pipeline"],
              "kind_free_text": "grammar-generated iterable programs run through the real crate (built with pipe!) and through std::iter as the reference"},
         ],
